@@ -63,6 +63,60 @@ class EqOpaque(Opaque):
         return hash(('EqOpaque', self.group))
 
 
+TRUTH_BASE = 2_000_000
+TRUTH_KINDS = ('bool-raises', 'len-effect', 'bool-false', 'len-raises', 'bool-effect')
+
+
+class TruthOpaque(Opaque):
+    """Arbitrary leaf objects with a non-trivial TRUTH VALUE (wire: {"o": ident >= TRUTH_BASE}, kind = ident % 5):
+      bool-raises  __bool__ raises ValueError (numpy array / DataFrame: "truth value is ambiguous")
+      len-effect   __len__ fetches (a lazy query result: measuring it changes its state), length 0, no __bool__
+      bool-false   __bool__ is False (an empty custom collection, a zero-like number)
+      len-raises   __len__ raises TypeError, no __bool__
+      bool-effect  __bool__ has a side effect and is True
+    Every evaluation is counted in `touched`: a formatter that passes leaves through as the identical objects has
+    no business evaluating them, and one that does changes the value it formats (the harness itself never
+    truth-tests or measures a leaf: is / isinstance / repr only). Build with `truth_opaque(ident)`."""
+
+    def __init__(self, ident):
+        super().__init__(ident)
+        self.kind = TRUTH_KINDS[ident % 5]
+        self.touched = 0
+        self.fetched = None
+
+
+class TruthBool(TruthOpaque):
+    def __bool__(self):
+        self.touched += 1
+        if self.kind == 'bool-raises':
+            raise ValueError('The truth value of an object with more than one element is ambiguous.')
+        if self.kind == 'bool-effect':
+            self.fetched = []
+        return self.kind == 'bool-effect'
+
+
+class TruthLen(TruthOpaque):
+    def __len__(self):
+        self.touched += 1
+        if self.kind == 'len-raises':
+            raise TypeError('len() of unsized object')
+        self.fetched = []
+        return 0
+
+
+def truth_opaque(ident):
+    return (TruthLen if TRUTH_KINDS[ident % 5].startswith('len') else TruthBool)(ident)
+
+
+def truth_opaques(*roots):
+    out = {}
+    for r in roots:
+        for i, o in opaques_in(r).items():
+            if isinstance(o, TruthOpaque):
+                out[i] = o
+    return list(out.values())
+
+
 def _classes():
     from ruamel.yaml.comments import CommentedMap, CommentedSeq
     return {
@@ -147,7 +201,9 @@ def build_objects(cells):
     for c in cells:
         if 'leaf' in c:
             w = c['leaf']
-            if isinstance(w, dict) and 'o' in w and w['o'] >= EQ_BASE:
+            if isinstance(w, dict) and 'o' in w and w['o'] >= TRUTH_BASE:
+                o = truth_opaque(w['o'])
+            elif isinstance(w, dict) and 'o' in w and w['o'] >= EQ_BASE:
                 o = EqOpaque(w['o'])
             else:
                 o = common.dec(w)
@@ -418,7 +474,8 @@ def enc9(o):
     """Python value -> wire, like common.enc, plus PyString(bare name) and container subclasses."""
     from pypyr.dsl import Jsonify, PyString, SicString
     if isinstance(o, PyString):
-        return {'py': {'n': o.value}}
+        e = getattr(o, '_vexpr', None) or common.PY_REGISTRY.get(o.value)
+        return {'py': e if e is not None else {'n': o.value}}
     if isinstance(o, SicString):
         return {'sic': o.value}
     if isinstance(o, Jsonify):
@@ -685,6 +742,22 @@ def shape_monitor(inp, res, path='$', fmt=None, ctx=None):
         if isref and res is not obj:
             return (f'{path}: {inp!r} refers to the non-string leaf {obj!r} ({type(obj).__name__}) of the context, '
                     f'which came back as a different object {res!r} ({type(res).__name__})')
+        if is_special(inp) and ctx is not None:
+            # a special tag is a formattable like any other, WHATEVER its payload (empty / zero / false / null:
+            # SpecialTagDirective.__bool__ is falsy then): at its position the result holds what the tag itself
+            # evaluates to - asked of the tag directly, not of the formatter
+            try:
+                own = ('ok', inp.get_value(ctx))
+            except RecursionError:
+                own = None
+            except Exception as e:
+                own = ('err', e)
+            if own is not None and own[0] == 'err':
+                return (f'{path}: the special tag {inp!r} itself raises {type(own[1]).__name__} when evaluated, but '
+                        f'formatting gave {res!r} ({type(res).__name__}) at its position')
+            if own is not None and not deep_equal(own[1], res):
+                return (f'{path}: the special tag {inp!r} evaluates to {own[1]!r} ({type(own[1]).__name__}) but the '
+                        f'formatted result holds {res!r} ({type(res).__name__}) at its position (special tag not formatted)')
         if fmt is None or path == '$':
             return None                               # the top-level formattable: any result
         try:
@@ -833,11 +906,24 @@ def _run_impl(value, ctxdict, id2old, entry):
     snap_v, snap_c = Snapshot(value), Snapshot(dict(ctx))
     fails = []
     bf = py_brace_free(value)
+    truthy = truth_opaques(value, dict(ctx))
     try:
         res = fmtcall(value)
         err = None
     except Exception as e:  # the formatter's own error, RecursionError included
         res, err = None, e
+    for o in truthy:
+        if o.touched:
+            # "non-string leaves (arbitrary objects) come through as the identical objects" / "never mutates the
+            # value being formatted": a leaf is handed on, not truth-tested or measured
+            fails.append(('leaf-evaluated',
+                          f'formatting evaluated the truth value / length of the leaf object {o!r} ({o.kind}) '
+                          f'{o.touched} time(s): '
+                          + (f'its state changed (fetched={o.fetched!r}) - the value being formatted was mutated'
+                             if o.kind in ('len-effect', 'bool-effect') else
+                             f'formatting raised {type(err).__name__}: {err}' if err is not None and o.kind.endswith('raises')
+                             else 'a leaf is passed through as the identical object, whatever it is')))
+            o.touched, o.fetched = 0, None
     f = snap_v.same(value, ids=True)
     if f:
         fails.append(('input-mutated', f'the formatted value changed: {f}'))
@@ -931,6 +1017,11 @@ def materialise(case):
         import pypyr.yaml
         doc = pypyr.yaml.get_pipeline_yaml(io.StringIO(case['yaml']))
         ctxmap, value = doc['ctx'], doc['value']
+        for o in iter_nodes(doc):
+            # a scalar `!jsonify 0` keeps the loader's TaggedScalar for to_yaml; it shows in repr() only
+            # (Jsonify(0, TaggedScalar(...)) when a container holding the tag is stringified): not modelled, dropped
+            if is_special(o) and getattr(o, 'scalar', None) is not None:
+                o.scalar = None
         keys = list(ctxmap.keys())
         cells, refs, objs = graph_to_cells([ctxmap[k] for k in keys] + [value])
         return cells, [[str(k), r] for k, r in zip(keys, refs[:-1])], refs[-1], objs
@@ -1254,6 +1345,72 @@ def directed_cases():
         return [['a', s1], ['b', s2], ['c', s3], ['l', l]], b.list([b.str('{a}'), b.str('{l}'), b.str('{l:rf}'),
                                                                       b.str('x{l:rf}'), b.str('{a:ff}')])
     case('recursive-ctx', recursive_ctx)
+
+    # SPECIAL TAGS WITH A FALSY PAYLOAD (SpecialTagDirective.__bool__ is falsy then) are formatted like any other,
+    # at every position: top level, list / tuple member, dict value, the same tag object twice, inside another
+    # tag's payload, as the target of '{k}' / '{k:ff}' / '{k:rf}' / 'x{k}y', inside a context list reached by '{l}'
+    FALSY = {'sic-empty': lambda b: b.sic(''), 'json-elist': lambda b: b.jsonify(b.list([])),
+             'json-edict': lambda b: b.jsonify(b.dict([])), 'json-zero': lambda b: b.jsonify(b.leaf(0)),
+             'json-false': lambda b: b.jsonify(b.leaf(False)), 'json-none': lambda b: b.jsonify(b.leaf(None)),
+             'json-estr': lambda b: b.jsonify(b.str('')), 'json-etuple': lambda b: b.jsonify(b.tuple([])),
+             'json-fzero': lambda b: b.jsonify(b.leaf(0.0)), 'json-ecseq': lambda b: b.jsonify(b.list([], 2)),
+             'json-ecmap': lambda b: b.jsonify(b.dict([], 2))}
+    for fname, mk in FALSY.items():
+        case(f'falsy-special-{fname}-top', lambda b, mk=mk: (std_ctx(b), mk(b)))
+
+        def members(b, mk=mk):
+            ctx = std_ctx(b)
+            t = mk(b)
+            return ctx, b.list([t, b.str('{a}'), b.tuple([mk(b), b.leaf(1)]), t,
+                                b.dict([[b.str('v'), mk(b)], [b.str('k{a}'), t]], 2), b.list([mk(b)], 3)])
+        case(f'falsy-special-{fname}-members', members)
+
+        def targets(b, mk=mk):
+            ctx = std_ctx(b)
+            t = mk(b)
+            ctx = ctx + [['ft', t], ['fl', b.list([t, b.str('{a}'), mk(b)])], ['fd', b.dict([[b.str('p'), t]])]]
+            return ctx, b.list([b.str('{ft}'), b.str('{ft:ff}'), b.str('{ft:rf}'), b.str('x{ft}y'), b.str('{fl}'),
+                                b.str('{fl:rf}'), b.str('{fd}'), b.tuple([b.str('{ft}')]),
+                                b.dict([[b.str('v'), b.str('{ft}')]])])
+        case(f'falsy-special-{fname}-targets', targets)
+        case(f'falsy-special-{fname}-target-top', lambda b, mk=mk: (std_ctx(b) + [['ft', mk(b)]], b.str('{ft}')))
+        case(f'falsy-special-{fname}-in-jsonify', lambda b, mk=mk: (std_ctx(b), b.jsonify(b.list([mk(b), b.leaf(1)]))))
+
+    # LEAVES WITH A NON-TRIVIAL TRUTH VALUE (bool() raises / len() has an effect / is False / len() raises / bool() has
+    # an effect) come through as the identical objects, untouched: on their own, in every container class, as dict
+    # value, shared, owned by the context and reached by '{k}' / '{k:ff}' / '{k:rf}' / a context list
+    for kind_i, kname in enumerate(TRUTH_KINDS):
+        def mkleaf(b, n, kind_i=kind_i):
+            return b.leaf(truth_opaque(TRUTH_BASE + 5 * n + kind_i))
+        case(f'truth-leaf-{kname}-top', lambda b, mkleaf=mkleaf: (std_ctx(b), mkleaf(b, 1)))
+
+        def in_containers(b, mkleaf=mkleaf):
+            ctx = std_ctx(b)
+            x, y = mkleaf(b, 2), mkleaf(b, 3)
+            return ctx, b.dict([[b.str('label'), b.str('m-{a}')],
+                                [b.str('data'), b.list([x, b.leaf(1), b.leaf(None), b.str('{a}'), x])],
+                                [b.str('t'), b.tuple([y, b.str('{a}')], 3)], [b.str('cs'), b.list([y], 2)],
+                                [b.str('direct'), x], [b.str('k{a}'), b.dict([[b.str('in'), y]], 3)]], 2)
+        case(f'truth-leaf-{kname}-containers', in_containers)
+
+        def as_targets(b, mkleaf=mkleaf):
+            ctx = std_ctx(b)
+            m = mkleaf(b, 4)
+            ctx = ctx + [['m', m], ['ml', b.list([m, b.str('{a}')])], ['md', b.dict([[b.str('p'), m]])]]
+            return ctx, b.list([b.str('{m}'), b.str('{m:ff}'), b.str('{m:rf}'), b.str('{ml}'), b.str('{ml:rf}'),
+                                b.str('{md}'), b.tuple([b.str('{m}'), m]), b.dict([[b.str('v'), b.str('{m}')]])])
+        case(f'truth-leaf-{kname}-targets', as_targets)
+        case(f'truth-leaf-{kname}-target-top', lambda b, mkleaf=mkleaf: (std_ctx(b) + [['m', mkleaf(b, 5)]], b.str('{m}')))
+
+        def memoised_target(b, mkleaf=mkleaf):
+            # the SAME str object '{m}' several times: its result - the leaf - is what the id-keyed memo answers with
+            ctx = std_ctx(b)
+            s = b.str('{m}')
+            t = b.tuple([s, b.leaf(1)])
+            return ctx + [['m', mkleaf(b, 7)]], b.list([s, s, t, t, b.dict([[b.str('p'), s], [b.str('q'), t]])])
+        case(f'truth-leaf-{kname}-memoised-target', memoised_target)
+        case(f'truth-leaf-{kname}-in-jsonify-sibling',
+             lambda b, mkleaf=mkleaf: (std_ctx(b), b.list([mkleaf(b, 6), b.jsonify(b.list([])), b.sic('')])))
     return out
 
 
@@ -1352,8 +1509,11 @@ def random_case(rng, size):
             q = rng.random()
             if q < 0.45:
                 ref = b.str(*expr(maxkey))
-            elif q < 0.9:
+            elif q < 0.87:
                 ref = b.leaf(rng.choice(CTX_LEAVES if top else LEAVES))
+            elif q < 0.93:
+                # a leaf object with a non-trivial truth value (bool() raises / is False / has an effect, len() ...)
+                ref = b.leaf(truth_opaque(TRUTH_BASE + 5 * (rng.randrange(1000) + 10 * len(b.cells)) + rng.randrange(5)))
             else:
                 ref = b.leaf(Opaque(rng.randrange(1000) + 10 * len(b.cells)))
             if rng.random() < 0.3:
@@ -1361,7 +1521,13 @@ def random_case(rng, size):
             return ref
         if r < 0.36:
             q = rng.random()
-            if q < 0.4:
+            if rng.random() < 0.3:
+                # a special tag whose payload is FALSY (the tag object itself is falsy then)
+                ref = rng.choice([lambda: b.sic(''), lambda: b.jsonify(b.list([], rng.choice([0, 2, 3]))),
+                                  lambda: b.jsonify(b.dict([], rng.choice([0, 2]))), lambda: b.jsonify(b.str('')),
+                                  lambda: b.jsonify(b.leaf(rng.choice([0, False, None]))),
+                                  lambda: b.jsonify(b.tuple([]))])()
+            elif q < 0.4:
                 ref = b.sic(expr(maxkey, False)[0])
             elif q < 0.7 and maxkey > 0:
                 i = rng.randrange(maxkey)
@@ -1430,6 +1596,9 @@ def random_yaml_case(rng):
             k = f'k{rng.randrange(maxkey)}' if maxkey else 'k0'
             s = rng.choice(['{%s}', 'pre {%s} post', '{%s:ff}', 'plain %s', '{{%s}}']) % k if maxkey else 'plain text'
             return "'" + s + "'"
+        if q < 0.44:
+            return rng.choice(["!sic ''", '!sic', '!jsonify []', '!jsonify {}', '!jsonify 0', '!jsonify false',
+                               '!jsonify null', "!jsonify ''"])
         if q < 0.5:
             return "!sic '{raw} text'"
         if q < 0.58 and maxkey:
@@ -1475,6 +1644,12 @@ YAML_DIRECTED = [
     "  d: !py k0\n  e: !jsonify\n    z: '{k0}'\n  f: [*x, 3]\n",
     "ctx:\n  k0: &s [1, '{k1}']\n  k1: end\nvalue:\n  - *s\n  - '{k0}'\n  - '{k0:ff}'\n  - plain\n",
     "ctx:\n  k0: text\nvalue: &top\n  x: 1\n  y: [a, b, {p: '{k0}', q: null}]\n",
+    # special tags with falsy payloads, as a pipeline author writes them
+    "ctx:\n  k0: v\n  k1: !jsonify []\n  k2: !sic ''\n  k3: !jsonify 0\nvalue:\n  a: !jsonify []\n  b: !jsonify {}\n"
+    "  c: !jsonify 0\n  d: !jsonify false\n  e: !jsonify null\n  f: !jsonify ''\n  g: !sic ''\n  g2: !sic\n"
+    "  h: ['{k1}', '{k2}', !jsonify [], '{k3}']\n  i: 'tags={k1} r={k3} n=[{k2}]'\n  j: !jsonify ['{k0}']\n",
+    "ctx:\n  k0: v\nvalue: !jsonify []\n",
+    "ctx:\n  k0: v\nvalue: !sic ''\n",
 ]
 
 
@@ -1619,6 +1794,10 @@ def random_py_case(rng):
 
 
 PY_DIRECTED = [
+    # an empty !py cannot be evaluated: formatting it (anywhere) raises, it never comes back as the tag object
+    {'ctx': [['k', 1]], 'v': {'pysrc': ''}},
+    {'ctx': [['k', 1]], 'v': ['x{k}', {'pysrc': ''}]},
+    {'ctx': [['k', 1], ['e', {'pysrc': ''}]], 'v': ['{e}']},
     {'ctx': [['items', [1, 2, 3]], ['total', 10], ['a', 'A']],
      'v': {'d': [['doubled', {'pysrc': '(n := len(items)) * 2 + n'}], ['lit', 'x{a}']]}},
     {'ctx': [['items', [1, 2, 3]], ['total', 10], ['a', 'A']],
